@@ -1,6 +1,7 @@
 package gerror
 
 import (
+	"slices"
 	"strings"
 )
 
@@ -108,7 +109,7 @@ func CloneBase[T factoryOf](
 		detailTag:  base.detailTag,
 		factoryRef: fRef,
 		stack:      base.stack,
-		srcError:   base.srcError,
+		srcErrors:  base.srcErrors,
 	}
 
 	// handle source:
@@ -140,8 +141,9 @@ func CloneBase[T factoryOf](
 		clone.factoryRef = err
 	}
 
-	if clone.srcError == nil && srcError != nil {
-		clone.srcError = srcError
+	if srcError != nil {
+		// never append in place: the backing array is shared with base and its other clones.
+		clone.srcErrors = append(slices.Clone(base.srcErrors), srcError)
 	}
 
 	// If we already have a stack, don't want one, or want a source and already have it
